@@ -8,9 +8,9 @@ package shwap
 
 import (
 	"bytes"
-	"crypto/sha256"
 	"encoding/json"
 	"fmt"
+	"hash/maphash"
 	"math"
 	"sort"
 	"strings"
@@ -86,12 +86,14 @@ func vwShortText(in []byte, form string) string {
 
 // ---------------------------------------------------------------- byte operators
 
-type vwSeen map[[16]byte]struct{}
+type vwSeen map[[2]uint64]struct{}
 
+var vwSeedA, vwSeedB = maphash.MakeSeed(), maphash.MakeSeed()
+
+// add reports whether b was not seen before (128-bit content hash; the seeds only decide which
+// astronomically unlikely pair of inputs would collide, never what is executed).
 func (s vwSeen) add(b []byte) bool {
-	h := sha256.Sum256(b)
-	var k [16]byte
-	copy(k[:], h[:16])
+	k := [2]uint64{maphash.Bytes(vwSeedA, b), maphash.Bytes(vwSeedB, b)}
 	if _, ok := s[k]; ok {
 		return false
 	}
